@@ -9,7 +9,7 @@ import asyncio
 from hypothesis import strategies as st
 
 from .. import clients, vworld
-from ..runner import HarnessError, InvalidCase, Result
+from ..runner import HarnessError, InvalidCase, Result, SetupFailed
 
 ID = "C01"
 LEVEL = "fault_enumeration"
@@ -170,7 +170,7 @@ def _run_async(res, case):
                 # drain: nothing of this transfer may survive into the next
                 W.c2s_tape, W.s2c_tape, W.s2c_cycle = [], [], None
                 if not await W.drain([spa._protocol.queue]):
-                    raise HarnessError("connection did not drain between transfers")
+                    raise SetupFailed("connection did not drain between transfers")
         finally:
             await clients.shutdown(tm)
 
